@@ -29,6 +29,7 @@ MAIN_RLIMIT = int(os.environ.get('PYVC_RLIMIT', '30000000'))
 QUICK_RLIMIT = int(os.environ.get('PYVC_QUICK_RLIMIT', '4000000'))
 PORTFOLIO_BUDGET_S = float(os.environ.get('PYVC_PORTFOLIO_S', '120'))
 PORTFOLIO_SPENT_S = 0.0
+TIME_SCALE = 1          # > 1 for the deep tier (check.py)
 CVC5 = '/usr/bin/cvc5'
 OLDZ3 = '/usr/bin/z3'
 
@@ -145,11 +146,11 @@ def check_valid_raw(pc, goal, timeout_ms=None, portfolio=True):
         present = present | symbols_of(c)
     subs = [(k, z3.ToInt(t)) for name, (t, k) in sym.FLOOR_DEFS.items() if name in present]
     if subs:
-        r3, s3, ms3 = _z3_check([z3.substitute(c, *subs) for c in rel], z3.substitute(neg, *subs), MAIN_RLIMIT // 3, 15000)
+        r3, s3, ms3 = _z3_check([z3.substitute(c, *subs) for c in rel], z3.substitute(neg, *subs), MAIN_RLIMIT // 3 * TIME_SCALE, 15000 * TIME_SCALE)
         ms += ms3
         if r3 == z3.unsat:
             return Verdict('unsat', 'z3-5.1(to_int)', ms)
-    r4, s4, ms4 = _z3_check(rel, neg, MAIN_RLIMIT, 20000)
+    r4, s4, ms4 = _z3_check(rel, neg, MAIN_RLIMIT * TIME_SCALE, 20000 * TIME_SCALE)
     ms += ms4
     if r4 == z3.unsat:
         return Verdict('unsat', 'z3-5.1', ms)
